@@ -677,7 +677,7 @@ void read_tile_info(Bitstrm *bs, TilesInfo *tile_info, SeqHeader *seq_header,
     } else {
         int widest_tile_sb = 0;
         start_sb           = 0;
-        for (i = 0; start_sb < sb_cols; i++) {
+        for (i = 0; start_sb < sb_cols && i < MAX_TILE_COLS; i++) {
             tile_info->tile_col_start_mi[i] = start_sb << sb_shift;
             int      max_width              = MIN(sb_cols - start_sb, tile_info->max_tile_width_sb);
             uint32_t width_in_sbs_minus_1   = dec_get_bits_ns(bs, max_width);
@@ -699,7 +699,7 @@ void read_tile_info(Bitstrm *bs, TilesInfo *tile_info, SeqHeader *seq_header,
         tile_info->max_tile_height_sb = MAX(max_tile_area_sb / widest_tile_sb, 1);
 
         start_sb = 0;
-        for (i = 0; start_sb < sb_rows; i++) {
+        for (i = 0; start_sb < sb_rows && i < MAX_TILE_ROWS; i++) {
             tile_info->tile_row_start_mi[i] = start_sb << sb_shift;
             int      max_height            = MIN(sb_rows - start_sb, tile_info->max_tile_height_sb);
             uint32_t height_in_sbs_minus_1 = dec_get_bits_ns(bs, max_height);
@@ -1353,8 +1353,9 @@ EbErrorType read_film_grain_params(EbDecHandle *dec_handle, Bitstrm *bs, AomFilm
     for (i = 0; i < grain_params->num_y_points; i++) {
         grain_params->scaling_points_y[i][0] = dec_get_bits(bs, 8);
         grain_params->scaling_points_y[i][1] = dec_get_bits(bs, 8);
-        if (i > 0)
-            assert(grain_params->scaling_points_y[i][0] > grain_params->scaling_points_y[i - 1][0]);
+        // the scaling function is interpolated between the points: their x values must increase
+        if (i > 0 && grain_params->scaling_points_y[i][0] <= grain_params->scaling_points_y[i - 1][0])
+            return EB_Corrupt_Frame;
         PRINT_FRAME("scaling_points_y[i][0]", grain_params->scaling_points_y[i][0]);
         PRINT_FRAME("scaling_points_y[i][1]", grain_params->scaling_points_y[i][1]);
     }
@@ -1379,9 +1380,9 @@ EbErrorType read_film_grain_params(EbDecHandle *dec_handle, Bitstrm *bs, AomFilm
             grain_params->scaling_points_cb[i][1] = dec_get_bits(bs, 8);
             PRINT_FRAME("scaling_points_cb[i][0]", grain_params->scaling_points_cb[i][0]);
             PRINT_FRAME("scaling_points_cb[i][1]", grain_params->scaling_points_cb[i][1]);
-            if (i > 0)
-                assert(grain_params->scaling_points_cb[i][0] >
-                       grain_params->scaling_points_cb[i - 1][0]);
+            // the scaling function is interpolated between the points: their x values must increase
+            if (i > 0 && grain_params->scaling_points_cb[i][0] <= grain_params->scaling_points_cb[i - 1][0])
+                return EB_Corrupt_Frame;
         }
         grain_params->num_cr_points = dec_get_bits(bs, 4);
         PRINT_FRAME("num_cr_points", grain_params->num_cr_points);
@@ -1392,9 +1393,9 @@ EbErrorType read_film_grain_params(EbDecHandle *dec_handle, Bitstrm *bs, AomFilm
             grain_params->scaling_points_cr[i][1] = dec_get_bits(bs, 8);
             PRINT_FRAME("scaling_points_cr[i][0]", grain_params->scaling_points_cr[i][0]);
             PRINT_FRAME("scaling_points_cr[i][1]", grain_params->scaling_points_cr[i][1]);
-            if (i > 0)
-                assert(grain_params->scaling_points_cr[i][0] >
-                       grain_params->scaling_points_cr[i - 1][0]);
+            // the scaling function is interpolated between the points: their x values must increase
+            if (i > 0 && grain_params->scaling_points_cr[i][0] <= grain_params->scaling_points_cr[i - 1][0])
+                return EB_Corrupt_Frame;
         }
     }
 
@@ -1950,6 +1951,7 @@ EbErrorType read_uncompressed_header(Bitstrm *bs, EbDecHandle *dec_handle_ptr, O
         read_frame_size(bs, seq_header, frame_info, frame_size_override_flag);
         // the picture buffers are sized for the sequence maximum
         if (frame_info->frame_size.frame_width > seq_header->max_frame_width ||
+            frame_info->frame_size.superres_upscaled_width > seq_header->max_frame_width ||
             frame_info->frame_size.frame_height > seq_header->max_frame_height)
             return EB_Corrupt_Frame;
         read_render_size(bs, frame_info);
@@ -2017,6 +2019,7 @@ EbErrorType read_uncompressed_header(Bitstrm *bs, EbDecHandle *dec_handle_ptr, O
             read_render_size(bs, frame_info);
         }
         if (frame_info->frame_size.frame_width > seq_header->max_frame_width ||
+            frame_info->frame_size.superres_upscaled_width > seq_header->max_frame_width ||
             frame_info->frame_size.frame_height > seq_header->max_frame_height)
             return EB_Corrupt_Frame;
         if (frame_info->force_integer_mv)
@@ -2278,7 +2281,9 @@ EbErrorType read_tile_group_obu(Bitstrm *bs, EbDecHandle *dec_handle_ptr, TilesI
         tg_start          = dec_get_bits(bs, tile_bits);
         tg_end            = dec_get_bits(bs, tile_bits);
     }
-    assert(tg_end >= tg_start);
+    // the tile group names tiles of this frame, in order
+    if (tg_end < tg_start || tg_end >= num_tiles)
+        return EB_Corrupt_Frame;
     PRINT_FRAME("tg_start", tg_start);
     PRINT_FRAME("tg_end", tg_end);
 
